@@ -366,9 +366,31 @@ def rule_optional_payload(ctx):
                             exprs.append(("[]", "msg.args", y))
                         elif isinstance(y, ast.Call) and isinstance(y.func, ast.Name) and y.func.id in ("len", "tuple", "list") and y.args and norm.text(y.args[0]) in ("msg.args", "msg.kwargs"):
                             exprs.append((y.func.id, norm.text(y.args[0]), y))
+            def guarded_in_expr(root, what):
+                """ids of the sub-expressions of `root` that are only evaluated when `what` is set (conditional expression / short-circuit and)"""
+                out = set()
+                for x in ast.walk(root):
+                    if isinstance(x, ast.IfExp):
+                        t_ = x.test
+                        pos = norm.text(t_) == what or (isinstance(t_, ast.Compare) and len(t_.ops) == 1 and isinstance(t_.ops[0], ast.IsNot) and norm.text(t_.left) == what
+                                                        and isinstance(t_.comparators[0], ast.Constant) and t_.comparators[0].value is None)
+                        neg = (isinstance(t_, ast.UnaryOp) and isinstance(t_.op, ast.Not) and norm.text(t_.operand) == what) or \
+                            (isinstance(t_, ast.Compare) and len(t_.ops) == 1 and isinstance(t_.ops[0], ast.Is) and norm.text(t_.left) == what
+                             and isinstance(t_.comparators[0], ast.Constant) and t_.comparators[0].value is None)
+                        if pos:
+                            out |= {id(y) for y in ast.walk(x.body)}
+                        if neg:
+                            out |= {id(y) for y in ast.walk(x.orelse)}
+                    elif isinstance(x, ast.BoolOp) and isinstance(x.op, ast.And):
+                        for i, v in enumerate(x.values):
+                            if norm.text(v) == what:
+                                for later in x.values[i + 1:]:
+                                    out |= {id(y) for y in ast.walk(later)}
+                return out
             for kind, what, node in exprs:
                 count += 1
-                ok = norm.is_truthy_known(facts, what) is True or norm.not_none_known(facts, what)
+                ok = norm.is_truthy_known(facts, what) is True or norm.not_none_known(facts, what) or \
+                    any(isinstance(e_, ast.AST) and id(node) in guarded_in_expr(e_, what) for e_ in node_exprs(n))
                 ctx.ob(f"{fn.name}: `{kind}{what}` only under a guard that it is set [{stmt_key(n.ast)[:40]}]", ok,
                        f"{what} is Optional (None when the message carries none) but is unpacked/indexed unguarded: TypeError out of onMessage, "
                        f"which closes the transport", fn.loc(node))
@@ -440,6 +462,25 @@ def _options_cells(ctx, oc, c, fn):
         ctx.ob(f"{oc}: {at}={reps[t][0]!r} reaches the wire like {at}={reps[t][1]!r} does [2 cells]", ok,
                f"{oc}({at}={reps[t][1]!r}) emits {d1}, {oc}({at}={reps[t][0]!r}) emits {d0}: the explicitly given value is dropped or altered, the router applies its default", fn.loc())
     ctx.require(n >= 1 or oc in ("SubscribeOptions",), f"{oc}: no option with an admissible falsy value found")
+    # every option given at once, each attribute holding a value that names it: whatever key carries one of these values (bare, or wrapped into a
+    # one-element list as the scalar forms of the authid / authrole filters are) must carry the value of the attribute of its own name
+    mark = lambda a_: f"value-of:{a_}"
+    env = {"self." + a: mark(a) for a in attrs}
+    env["self"] = Sym("options")
+    try:
+        r = Tiny(env, default_call=lambda f, a_, k_=None: Sym(f"<{f}>"), model_types=True).run(body)
+    except AnalysisError as e:
+        raise AnalysisError(f"[C04.6-options-to-wire] {oc}.message_attr outside the modelled subset: {e}")
+    wrong = []
+    if r[0] == "return" and isinstance(r[1], dict):
+        for k_, v_ in r[1].items():
+            inner = v_[0] if isinstance(v_, list) and len(v_) == 1 else v_
+            if isinstance(inner, str) and inner.startswith("value-of:") and inner != mark(k_):
+                wrong.append(f"'{k_}' is sent with the value of self.{inner.split(':', 1)[1]}")
+    else:
+        wrong.append(f"message_attr {r[0]} {str(r[1])[:60]}")
+    ctx.ob(f"{oc}: with every option given, each key on the wire carries the value of the option of the same name [1 cell, {len(attrs)} options]", not wrong,
+           "; ".join(wrong[:3]), fn.loc())
 
 
 def rule_options(ctx):
